@@ -215,9 +215,9 @@ def run_lines(exe, lines, chunks=None, timeout=1800, env=None):
     e.setdefault("ASAN_OPTIONS", "detect_leaks=0:abort_on_error=0:exitcode=99")
     e.setdefault("UBSAN_OPTIONS", "print_stacktrace=1")
     if env: e.update(env)
-    def run(part, depth=0):
+    def run(part, depth=0, hangs=0):
         # a chunk normally finishes in well under a minute; a driver that loops (corrupted list) is a hang
-        tmo = min(timeout, 90 if depth else 240)
+        tmo = min(timeout, 30 if hangs else 150)
         try:
             r = subprocess.run([exe], input=("\n".join(part) + "\n").encode(), stdout=subprocess.PIPE,
                                stderr=subprocess.PIPE, timeout=tmo, env=e)
@@ -235,8 +235,9 @@ def run_lines(exe, lines, chunks=None, timeout=1800, env=None):
             res.append(("!crash hang " if rc == -999 else "!crash rc=%d " % rc) + " ".join(err.split())[:400])
             rest = part[k + 1:]
             if rest:
-                if depth >= 30: res += ["!crash not-run (too many crashes in this chunk)"] * len(rest)
-                else: res += run(rest, depth + 1)
+                nh = hangs + (1 if rc == -999 else 0)
+                if depth >= 30 or nh >= 2: res += ["!crash not-run (too many crashes or hangs in this chunk)"] * len(rest)
+                else: res += run(rest, depth + 1, nh)
             return res
         return outl
     with ThreadPoolExecutor(len(parts)) as ex:
